@@ -210,6 +210,7 @@ type FS struct {
 	nextH   int
 	journal []Op
 	noJourn bool
+	tempSeq uint64
 
 	// Fault hooks (nil = healthy disk).
 	Fault FaultFn
@@ -1297,4 +1298,61 @@ func (f *FS) Tree(root string) []string {
 	}
 	walk(p, n)
 	return out
+}
+
+// ---------------------------------------------------------------- temporary files (deterministic names)
+
+func tempName(pattern string) (prefix, suffix string) {
+	if i := strings.LastIndex(pattern, "*"); i >= 0 {
+		return pattern[:i], pattern[i+1:]
+	}
+	return pattern, ""
+}
+
+// CreateTemp creates a new file in dir (TempDir() when empty) whose name is pattern with the last "*" replaced by a
+// per-file-system counter, like os.CreateTemp with a deterministic name.
+func CreateTemp(dir, pattern string) (*File, error) {
+	f := must()
+	if dir == "" {
+		dir = TempDir()
+	}
+	pre, suf := tempName(pattern)
+	for i := 0; i < 10000; i++ {
+		f.mu.Lock()
+		f.tempSeq++
+		n := f.tempSeq
+		f.mu.Unlock()
+		name := dir + "/" + pre + fmt.Sprintf("%09d", n) + suf
+		h, err := f.OpenFile(name, O_RDWR|O_CREATE|O_EXCL, 0o600)
+		if IsExist(err) {
+			continue
+		}
+		return h, err
+	}
+	return nil, perr("createtemp", dir+"/"+pre+"*"+suf, ErrExist)
+}
+
+// MkdirTemp is os.MkdirTemp with a deterministic name.
+func MkdirTemp(dir, pattern string) (string, error) {
+	f := must()
+	if dir == "" {
+		dir = TempDir()
+	}
+	pre, suf := tempName(pattern)
+	for i := 0; i < 10000; i++ {
+		f.mu.Lock()
+		f.tempSeq++
+		n := f.tempSeq
+		f.mu.Unlock()
+		name := dir + "/" + pre + fmt.Sprintf("%09d", n) + suf
+		err := f.Mkdir(name, 0o700)
+		if IsExist(err) {
+			continue
+		}
+		if err != nil {
+			return "", err
+		}
+		return name, nil
+	}
+	return "", perr("mkdirtemp", dir+"/"+pre+"*"+suf, ErrExist)
 }
